@@ -743,6 +743,17 @@ def instr_check(prop_id, tier, seed, gen_filter=None, extra_cases=None, with_hw=
     res["trusted"] = ["Spec/ISA.v + Spec/CodeSem.v as the statement of what an x86-64 CPU does; validated on this run against the host "
                       "CPU on %d cases (%d disagreements)" % (len(hw), len(hwbad))]
     broken = []
+    # tie: the same cases through the regenerated Gallina (exact impl <-> model), both build profiles for C19
+    for prof, dbg in ((("release", False), ("relchk", True)) if prop_id == "C19" else (("release", False),)):
+        ti, tm = axv.run_pair(hs[prof], lines, dbg, dbg, prop_id + "-tie-" + prof)
+        tb = axv.diff_results(ti, tm)
+        res["extra"]["tie_cases_" + prof] = len(ti)
+        if tb:
+            cid, first = tb[0]
+            broken.append(("correspondence", "impl<->generated model differ on %d cases (%s), e.g. %s: impl `%s` model `%s`" % (
+                len(tb), prof, cid, first[0], first[1])))
+            if len(violations) < 3 and prop_id == "C19" and any("panic" in l for l in ti.get(cid, [])):
+                pass
     if len(hwbad) > max(3, len(hw) // 2000):
         cid, k, d = hwbad[0]
         broken.append(("spec-vs-hardware", "%d disagreements, e.g. %s %s %s" % (len(hwbad), cid, k, d)))
